@@ -100,8 +100,9 @@ func (s Str) String() string {
 }
 
 type Obj struct {
-	epoch int
-	site  string
+	epoch   int
+	site    string
+	harness bool // allocated by harness code: the caller's object, not shared engine state
 }
 
 type Ptr struct {
